@@ -13,3 +13,41 @@ package locRIB
 //@   props C29
 //@   trusted the Loc-RIB and its clients write none of the caller's objects (table isolation, property C13); the Loc-RIB's own state is not read by the caller
 //@   modifies nothing
+
+// Properties C25 / C26 (see routingtable/zz_contracts_verif.go for what is
+// decided). The Loc-RIB's lock is taken after the lock of the Adj-RIB-In that
+// feeds it and before the locks of the Adj-RIBs-Out it feeds.
+//@ locklevel LocRIB.mu 20
+
+//@ contract (*LocRIB).Dump, (*LocRIB).UpdateNewClient, (*LocRIB).RefreshClient, (*LocRIB).AddPath, (*LocRIB).RemovePath, (*LocRIB).ReplacePath, (*LocRIB).ContainsPfxPath, (*LocRIB).String, (*LocRIB).Print, (*LocRIB).AddPathInitialDump
+//@   props C25
+//@   nosafety
+//@   acquires 20
+//@   locks C25
+
+// Called with the Loc-RIB's write lock held.
+//@ contract (*LocRIB).propagateChanges, (*LocRIB).addPathsToClients, (*LocRIB).removePathsFromClients
+//@   props C25
+//@   nosafety
+//@   requires verif_wheld(&a.mu)
+//@   acquires 21
+//@   locks C25
+
+// Registration tells the new client the table's content (under the read lock).
+//@ contract (*LocRIB).Register, (*LocRIB).RegisterWithOptions
+//@   props C25
+//@   nosafety
+//@   acquires 10
+//@   locks C25
+
+//@ contract (*LocRIB).Unregister, (*LocRIB).ClientCount, (*LocRIB).Dispose
+//@   props C25
+//@   nosafety
+//@   acquires 21
+//@   locks C25
+
+//@ contract (*LocRIB).LPM, (*LocRIB).Get, (*LocRIB).GetLonger
+//@   props C25
+//@   nosafety
+//@   acquires 80
+//@   locks C25
